@@ -55,8 +55,10 @@ NotesEq(a, b, shift, res) ==
     /\ Cardinality(a) = Cardinality(b)
     /\ \A x \in a : \E y \in b : y.c = x.c + shift /\ AbsV(y.t - x.t) <= res /\ AbsV(y.t + y.n - x.t - x.n) <= res /\ (x.n = 0) = (y.n = 0)
     /\ \A y \in b : \E x \in a : y.c = x.c + shift /\ AbsV(y.t - x.t) <= res
-TempoKept(a, b, res) ==
-    \A x \in a : \E y \in b : AbsV(y.t - x.t) <= res /\ (\A z \in a : z.t <= x.t) => AbsV(y.bl - x.bl) <= 3
+(* every source tempo point is a target tempo point; its value is compared for the last one (the running tempo), and for  *)
+(* every one when neither end re-seats tempo changes onto measure lines (osu, Quaver, O2Jam source -> osu, Quaver)         *)
+TempoKept(a, b, res, strict) ==
+    \A x \in a : \E y \in b : AbsV(y.t - x.t) <= res /\ ((strict \/ \A z \in a : z.t <= x.t) => AbsV(y.bl - x.bl) <= 3)
 
 WellFormedTgt(e, k) ==
     CASE e.tgt_game = "osu" -> LET w == Osu!WellFormed(e.tgt[k]) IN \A c \in DOMAIN w : w[c]
@@ -76,7 +78,7 @@ Clauses(e) ==
       tempo |-> Len(e.tgt) = n => \A k \in 1..n :
                      LET s == TL(e.src_game, e.src, IF e.src_game \in {"sm", "o2j"} THEN k ELSE 1, e.src_layout)
                          t == TL(e.tgt_game, e.tgt[k], 1, e.tgt_layout)
-                     IN TempoKept(s.tempo, t.tempo, Res(e, s)) ]
+                     IN TempoKept(s.tempo, t.tempo, Res(e, s), e.src_game \in {"osu", "qua", "o2j"} /\ e.tgt_game \in {"osu", "qua"}) ]
 
 Failing(e) == LET c == Clauses(e) IN { k \in DOMAIN c : ~c[k] }
 Init == l = 1 /\ nbad = 0
